@@ -18,7 +18,9 @@ import (
 // (a) explicit-state BFS over {put, get, reopen, flush, compact, churn} on a pool of
 //     colliding ids against a reference map, from several real start states;
 // (b) stateless enumeration of every op sequence after a Get whose returned slice is
-//     retained: the bytes handed back must never change.
+//     retained: the bytes handed back must never change;
+// (c) the node's own read path (PortalProtocol.Get, the API's LocalContent) on top of the real
+//     store, compared with the database after every operation of pruning histories (c04node.go).
 
 func init() {
 	register(&Prop{ID: "C04", Level: "model_checking", Run: runC04, Replay: replayC04,
@@ -472,6 +474,15 @@ func runC04(r *mc.Report, e *Env) {
 		}
 	}
 	r.Count("live_slice_sequences", int64(n))
+
+	// (c) the node's own read path on top of the store (c04node.go)
+	for _, t := range c04NodeTaskList(e.Thorough()) {
+		unit++
+		if e.Of > 1 && e.Shard != unit-1 {
+			continue
+		}
+		runC04Node(r, e, t)
+	}
 }
 
 func c04TaskCount(thorough bool) int {
@@ -479,11 +490,11 @@ func c04TaskCount(thorough bool) int {
 	if thorough {
 		n = 9 * len(c04Events())
 	}
-	return n + 18 + c04ConcTasks() // live-slice units, concurrent scenarios
+	return n + 18 + c04NodeTasks(thorough) + c04ConcTasks() // live-slice units, node read path units, concurrent scenarios
 }
 
 func replayC04(r *mc.Report, e *Env, raw json.RawMessage) {
-	if replayC04Conc(r, raw) {
+	if replayC04Conc(r, raw) || replayC04Node(r, raw) {
 		return
 	}
 	var c c04Case
